@@ -3,11 +3,11 @@
 import json,sys,shutil,os,glob
 id=sys.argv[1]; caught=[x for x in sys.argv[2].split(',') if x and x!='-']; missed=[x for x in sys.argv[3].split(',') if x and x!='-']
 note=sys.argv[4] if len(sys.argv)>4 else ''
-src='/tmp/wtout/'+id; dst='/verif/seeded/'+id
+src=os.environ.get('OUTBASE','/tmp/wtout')+'/'+id; dst='/verif/seeded/'+id+os.environ.get('SUFFIX','')
 os.makedirs(dst,exist_ok=True)
 shutil.copy(src+'/patch.diff',dst+'/patch.diff')
 for f in glob.glob(src+'/demo*'): shutil.copy(f,dst)
 m=json.load(open(src+'/meta.json'))
-m['verified_by_me']={'worktree':'/tmp/wt/'+id+' (scratch, removed afterwards)','steps':'tools/seeded_verify.sh: demo without the change passes; git apply; cargo test --workspace --no-fail-fast --offline passes with the change; demo with the change fails; then git -C /repo apply patch.diff, ./run.sh <check> quick, git -C /repo checkout -- .','caught_by_checks':caught,'not_caught_by':missed,'note':note}
+m['verified_by_me']={'worktree':os.environ.get('WTBASE','/tmp/wt')+'/'+id+' (scratch, removed afterwards)','steps':'tools/seeded_verify.sh: demo without the change passes; git apply; cargo test --workspace --no-fail-fast --offline passes with the change; demo with the change fails; then git -C /repo apply patch.diff, ./run.sh <check> quick, git -C /repo checkout -- .','caught_by_checks':caught,'not_caught_by':missed,'note':note}
 json.dump(m,open(dst+'/meta.json','w'),indent=1)
 print('stored',dst,os.listdir(dst))
